@@ -305,7 +305,7 @@ func checkC02(c *Ctx, w *World) {
 			}
 			alloc := false
 			eachInstr(pl.uscs, func(in ssa.Instruction) {
-				if al, ok := in.(*ssa.Alloc); ok && strings.HasSuffix(shortType(al.Type()), "*grpcgcp.subConnRef") {
+				if al, ok := in.(*ssa.Alloc); ok && shortType(al.Type()) == "*grpcgcp.subConnRef" {
 					alloc = true
 				}
 			})
